@@ -65,5 +65,39 @@ Definition sweep_class (now : Z) (ents : list (Z * option Z)) (left : list Z) : 
   else if existsb (fun k => match deadline_of ents k with Some (Some u) => u <? now | _ => false end) left then 10%N
   else 0%N.
 
+(* ---- the per-ID lock map on its own ("no per-ID locks" / "reference-counted per-key lock entries") ----
+   observed after a step of a lock/try-lock/unlock script: [tab] = (key, reference count) of the
+   entries the map holds, [thr] = per thread (status, key): 0 outside, 1 waiting in Lock(key),
+   2 holds the lock of key.  An entry may exist only for a key some thread holds or waits for --
+   in particular none when every thread is outside.  (3 = per-ID lock left) *)
+Definition lock_users (k : Z) (thr : list (Z * Z)) : nat :=
+  length (filter (fun sk => ((fst sk =? 1) || (fst sk =? 2)) && (snd sk =? k)) thr).
+Definition locks_step_class (tab thr : list (Z * Z)) : N :=
+  if existsb (fun kc => Nat.eqb (lock_users (fst kc) thr) 0) tab then 3%N else 0%N.
+
+(* ---- message-ID continuations under housekeeping ticks that interleave with the exchanges ----
+   what the script did, in order: an exchange registers a continuation under message ID k (with the
+   deadline of its context, None = no deadline); the exchange under k ends (acknowledged, reset,
+   given up, cancelled); a housekeeping tick at [now] has completed; the message IDs found in the
+   table.  A message ID found must belong to an exchange that has started, has not ended, and whose
+   deadline no completed tick has passed.  (2 = message-ID continuation left) *)
+Inductive xev := XStart (k : Z) (dl : option Z) | XEnd (k : Z) | XTick (now : Z) | XObs (lft : list Z).
+
+Fixpoint mid_class_from (open : list (Z * option Z * bool)) (tr : list xev) : N :=
+  match tr with
+  | [] => 0%N
+  | XStart k dl :: r => mid_class_from ((k, dl, false) :: open) r
+  | XEnd k :: r => mid_class_from (filter (fun x => negb (fst (fst x) =? k)) open) r
+  | XTick now :: r =>
+      mid_class_from (map (fun x => match snd (fst x) with
+                                    | Some d => if d <? now then (fst x, true) else x
+                                    | None => x
+                                    end) open) r
+  | XObs lft :: r =>
+      if existsb (fun k => negb (existsb (fun x => (fst (fst x) =? k) && negb (snd x)) open)) lft then 2%N
+      else mid_class_from open r
+  end.
+Definition mid_class (tr : list xev) : N := mid_class_from [] tr.
+
 (* the same as a proposition on the total *)
 Definition total (sz : list Z) : Z := fold_left Z.add sz 0.
